@@ -1,7 +1,7 @@
 
 // ===== folo-verif overlay (add-only; compiled only under `cargo kani`) =====
 #[cfg(kani)]
-pub(crate) mod verif_kani {
+pub(crate) mod verif_kani_slab {
     use super::*;
     pub(crate) use crate::opaque::slab_layout::verif_kani::{layout_wf, wf_layout};
 
@@ -502,9 +502,9 @@ pub(crate) mod verif_kani {
         ($name:ident, $unwind:expr, $body:expr) => {
             #[kani::proof]
             #[kani::unwind($unwind)]
-            #[kani::stub(crate::opaque::slab::catch_unwind, crate::opaque::slab::verif_kani::catch_unwind_stub)]
-            #[kani::stub(crate::opaque::slab::resume_unwind, crate::opaque::slab::verif_kani::resume_unwind_stub)]
-            #[kani::stub(std::thread::panicking, crate::opaque::slab::verif_kani::panicking_stub)]
+            #[kani::stub(crate::opaque::slab::catch_unwind, crate::opaque::slab::verif_kani_slab::catch_unwind_stub)]
+            #[kani::stub(crate::opaque::slab::resume_unwind, crate::opaque::slab::verif_kani_slab::resume_unwind_stub)]
+            #[kani::stub(std::thread::panicking, crate::opaque::slab::verif_kani_slab::panicking_stub)]
             fn $name() {
                 $body
             }
@@ -545,9 +545,9 @@ pub(crate) mod verif_kani {
     // if drop() ever returns normally for a non-empty slab the marker below fails as well and is reported.
     #[kani::proof]
     #[kani::unwind(5)]
-    #[kani::stub(crate::opaque::slab::catch_unwind, crate::opaque::slab::verif_kani::catch_unwind_stub)]
-    #[kani::stub(crate::opaque::slab::resume_unwind, crate::opaque::slab::verif_kani::resume_unwind_stub)]
-    #[kani::stub(std::thread::panicking, crate::opaque::slab::verif_kani::panicking_stub)]
+    #[kani::stub(crate::opaque::slab::catch_unwind, crate::opaque::slab::verif_kani_slab::catch_unwind_stub)]
+    #[kani::stub(crate::opaque::slab::resume_unwind, crate::opaque::slab::verif_kani_slab::resume_unwind_stub)]
+    #[kani::stub(std::thread::panicking, crate::opaque::slab::verif_kani_slab::panicking_stub)]
     fn slab_drop_policy_nonempty_panics_cap2() {
         drop_policy_forbidding_panics_nonempty_case::<2>();
         assert!(false, "C02.drop_policy_nonempty_must_panic: drop() of a non-empty MustNotDropContents slab returned normally");
